@@ -282,3 +282,44 @@ def concurrent_calls(k, seed):
     for th in ths:
         th.join(30)
     return [(seed * 100 + t, res.get(t)) for t in range(k)]
+
+
+def overlapping_builds(k, seed):
+    """k threads build DAGs at the same time: the first pauses inside its describing function until all the
+    others are blocked trying to start theirs.  Returns per thread the built table or the exception."""
+    fns = [make_fn(i) for i in range(NF)]
+    rng = random.Random(seed)
+    plans = [[rng.randrange(NF) for _ in range(rng.randint(1, 3))] for _ in range(k)]
+    inside = threading.Event()
+    go = threading.Event()
+    attempted = [threading.Event() for _ in range(k)]
+    res = {}
+
+    def worker(t):
+        def describe():
+            last = None
+            for n_, f in enumerate(plans[t]):
+                last = fns[f](5)
+                if t == 0 and n_ == 0:
+                    inside.set()
+                    go.wait(10)       # pause inside the describing function
+            return last
+        describe.__name__ = describe.__qualname__ = "ob_%d" % t
+        if t != 0:
+            inside.wait(10)
+        attempted[t].set()
+        try:
+            res[t] = ("BUILT", table_of(threadsafe_make_dag(describe, 1, False)))
+        except BaseException as e:  # noqa: BLE001
+            res[t] = ("EXC", type(e).__name__, str(e)[:120])
+    ths = [threading.Thread(target=worker, args=(t,), daemon=True) for t in range(k)]
+    for th in ths:
+        th.start()
+    for t in range(1, k):
+        attempted[t].wait(10)
+    import time
+    time.sleep(0.05)      # let the others reach the lock
+    go.set()
+    for th in ths:
+        th.join(30)
+    return plans, res
